@@ -294,7 +294,9 @@ def complete(job, runid, target, timing, status):
     _handed(job).discard(target)
 
     if _is_idle(job):
-        que.remove(job)
+        # defer() queues the job once per due event: none of its entries stays
+        while job in que:
+            que.remove(job)
         job.set('status', State.waiting)
         pass
 
